@@ -56,7 +56,7 @@ def gen_behaviour(rng, op):
              "shape": rng.choice(["pair", "pair", "pair", "pair", "single", "triple", "none"])}
         return b
     # generator handlers
-    b = {"mode": rng.choice(["gen", "gen", "gen", "gen", "gen", "list", "none", "raise_first"])}
+    b = {"mode": rng.choice(["gen", "gen", "gen", "gen", "gen", "list", "none", "raise_first", "ret_int", "ret_obj"])}
     n = rng.randrange(0, 5)
     if op in ("get", "move"):
         b["count"] = rng.choice([n, n, n, max(0, n - 1), n + 1, 0, "str", None])
@@ -189,6 +189,10 @@ def execute(sc, ctx):
                 raise HandlerError("scripted failure before the first yield")
             if mode == "none":
                 return None
+            if mode == "ret_int":
+                return 0x0000  # "return" instead of "yield": not iterable
+            if mode == "ret_obj":
+                return object()
             if mode == "list":
                 return list(pre(event, name)) + [(mk_status(it["status"]), mk_ds(it["ds"], i, name)) for i, it in enumerate(b["items"]) if "status" in it and it["status"]["t"] != "raise"]
 
